@@ -1,5 +1,44 @@
 """Fail-closed translator: `$VERIF_REPO/src/superrec2/compute/reconciliation.py` -> `coq/Gen/ThlGen.v`.
-(docstring completed below)
+
+The general DTL solver -- `_compute_thl_try_speciation`, `_compute_thl_try_duplication_transfer`, `_compute_thl_table`,
+`_decode_thl_table`, `reconcile_thl` -- and `reconcile_lca` are translated statement by statement by `translator/pyfun.py` (see its
+docstring, sixth extension).  The table, its proxies and the entries are the code of `Gen/TableGen.v` and `Gen/EntryGen.v`
+(imported); the object tree, `ReconciliationInput`, the cost dictionary and the event enums are those of `Gen/EvalGen.v`, whose
+evaluator computes `output.cost()`.  `coq/Proofs/ThlGenProofs.v` proves the generated functions, instantiated at root paths, equal to
+the model `coq/Model/Thl.v` run with the enumeration orders of the code, and that model equal to `Model/Thl.v` itself up to the
+order of tags / results.  Any construct outside the subset, a definition missing or made twice, an import that is not the expected
+one, or a variable without a declared type raises `TranslatorAbort` with file:line.  The output file is rewritten only when its
+content changes.
+
+What this driver supplies, i.e. the assumptions of the tie:
+
+* everything `table_gen.py`, `entry_gen.py` and `eval_gen.py` assume; the three generated files are re-derived from the source
+  under translation (same text, or abort) so that the imported declarations are those of the files on disk;
+* species: the species tree is the inductive `STree` (a leaf or a node with two subtrees, an identifier of the Section's type `sp`
+  at every node: the identity of the ete3 node, compared with `sp_eqb`).  Where a species node is used as a tag, as a key or as an
+  argument of the LCA structure, its identifier is meant (`STree_id`).  `species_lca` is a value of an opaque type; `is_ancestor_of`,
+  `distance`, the call `species_lca(a, b)` and the attribute `tree` are the Section's `lca_is_ancestor_of`, `lca_distance`, `lca_call`,
+  `lca_tree` (that the Euler-tour structure computes them is property C17);
+* `x.traverse()` is ete3's default LEVEL ORDER (`STree_levelorder`: by increasing depth, left to right), `traverse("postorder")`
+  the two subtrees then the node; both trees are binary (`a, b = x.children`: ValueError on a leaf);
+* the table has the tag type `MappingInfo` (a NamedTuple -> Record, fields `option sp`: a candidate's `info` may be `None`) and the
+  keys `node_id + sp` (`inl`: an object node, `inr`: a species), compared with `key_eqb`; `table.entry()` is `gen_table_entry2`, the
+  entry of another tag type (species), as the code uses it for its aggregators; the table is updated in place: the three table
+  functions take it and return it (`mutates`);
+* `info.left` / `info.right` where a species is needed: the error `NoneValue` when the field is `None` (the translation does not follow
+  what Python would then do; the proofs show that every tag of the table holds two species);
+* the local functions `spe_combinator`, `dup_combinator`, `hgt_combinator` are Coq `fun`s; `+` with an `ext` operand is `ext_add`;
+* `_decode_thl_table` is a generator: the list of what it yields, with the table it has read (reading creates dictionary items);
+  `product(g1, g2)` is `list_prod` of the two lists; the set `infos()` of the cell is iterated in the order `infos_order`, a Section
+  parameter (Python fixes none; the theorems need it to return a permutation of its argument);
+* `ReconciliationOutput(rec_input, d)`: a Record of this file (`tout_state`) holding the input and the dictionary as the list of its
+  stores, newest first (`{k: v, **l, **r}` is `r ++ l ++ [(k, v)]`: looking a key up sees the later stores first); `output.cost()`
+  is `gen_output_cost`: the evaluator of `Gen/EvalGen.v` on the dictionary read as a function, a key that is absent answering the
+  Section's `missing` (Python: KeyError; the evaluator only looks up nodes of the object tree, which are all keys).  `==` / hashing of
+  outputs (the result entry keeps a set of them) is the Section's `output_eqb`; the theorems assume it decides whether two outputs
+  denote the same reconciliation;
+* in `_compute_thl_table` the name `root_species` is two variables (the species of a leaf: an identifier; the loop variable: a
+  node), never live at the same time: the loop variable is spelled `root_species_`.
 """
 from __future__ import annotations
 
@@ -153,7 +192,17 @@ def build(repo: Path):
     travs = [unit.traversal_defs("STree"), unit.traversal_defs("TreeNode")]
     text = "\n".join([
         "(* GENERATED by translator/thl_gen.py (via translator/pyfun.py) from",
-        "   src/superrec2/compute/reconciliation.py -- do not edit. *)",
+        "   src/superrec2/compute/reconciliation.py -- do not edit.  Statement-by-statement translation of the general",
+        "   DTL solver and of [reconcile_lca]: an assignment is a shadowing [let], the statements after an [if] a",
+        "   continuation [k'n], each loop a [Fixpoint] returning [flow]; the table ([Gen/TableGen.v]) is updated in",
+        "   place: the functions that take it return it, a chain [table[a][b].m(..)] goes through the proxies and",
+        "   reads the table back from the last one; the aggregators are entries of [Gen/EntryGen.v]; the species",
+        "   tree is the inductive [STree], [traverse()] its level order, [traverse(\"postorder\")] its post-order;",
+        "   the combinators are [fun]s; [_decode_thl_table] (a generator) is the list of what it yields, a",
+        "   structural [Fixpoint] on the object tree whose loop over the tags is a local [fix]; an output is the",
+        "   record [tout_state] (the dictionary: the list of its stores, newest first), its cost the evaluator of",
+        "   [Gen/EvalGen.v] ([gen_output_cost]).  Proofs/ThlGenProofs.v proves these functions, at root paths, equal to",
+        "   Model/Thl.v. *)",
         "From Coq Require Import List Bool ZArith NArith.",
         "From SR Require Import Base.Ext.",
         "From SR Require Gen.EntryGen Gen.TableGen Gen.EvalGen.",
